@@ -148,6 +148,8 @@ structure Coh (s : St α) : Prop where
   size : (s.spans.size : Int) = (Wtot s).spanIndex + 1
   out : (Wtot s).isIn = false
   merges : ∀ k e, s.active[k]? = some e → e.isMerge = true → (Wat s k).isIn = true
+  /-- a merge vertex carries winding 0 -/
+  mz : ∀ x ∈ sigs s, x.1 = true → x.2 = 0
 
 theorem Wat_congr {s s' : St α} (h1 : s'.active = s.active) (h2 : s'.rule = s.rule) (k : Nat) :
     Wat s' k = Wat s k := by unfold Wat; rw [h1, h2]
@@ -157,7 +159,8 @@ theorem Coh.frame {s s' : St α} (h : Coh s) (h1 : s'.spans = s.spans) (h2 : s'.
   have hW : ∀ k, Wat s' k = Wat s k := Wat_congr h2 h3
   have hT : Wtot s' = Wtot s := by unfold Wtot; rw [hW, h2]
   exact ⟨h1 ▸ h.live, by rw [h1, hT]; exact h.size, by rw [hT]; exact h.out,
-    fun k e hk hm => by rw [hW]; exact h.merges k e (h2 ▸ hk) hm⟩
+    fun k e hk hm => by rw [hW]; exact h.merges k e (h2 ▸ hk) hm,
+    by unfold sigs; rw [h2]; exact h.mz⟩
 
 /-- a span index read off an `in` gap of a coherent state is a valid index -/
 theorem Coh.idx_ok {s : St α} (h : Coh s) {k : Nat} (hin : (Wat s k).isIn = true) :
